@@ -401,6 +401,31 @@ type replayFile struct {
 	Observe  []string          `json:"observe,omitempty"`
 	Outcome  string            `json:"outcome,omitempty"`
 	Readable string            `json:"readable,omitempty"`
+	Docs     map[string]string `json:"docs,omitempty"`
+}
+
+// readableDocs describes a counterexample whose inputs include documents built by
+// verifrt.Arbitrary: the lazily recorded inputs are replaced by the rendered document text.
+func readableDocs(in []interp.InputVal, docs map[string]string) string {
+	var plain []interp.InputVal
+	for _, x := range in {
+		if !strings.HasPrefix(x.Kind, "lz:") {
+			plain = append(plain, x)
+		}
+	}
+	s := readable(plain)
+	var names []string
+	for n := range docs {
+		names = append(names, n)
+	}
+	sort.Strings(names)
+	for _, n := range names {
+		if s != "" {
+			s += " "
+		}
+		s += n + "=" + strconv.Quote(docs[n])
+	}
+	return s
 }
 
 func readable(in []interp.InputVal) string {
@@ -505,7 +530,9 @@ func checkMain(id, tier string) int {
 		var pending []replayFile
 		for _, run := range runs {
 			traceEvery := 0
-			if !run.Twin {
+			if !run.Twin && !run.Summarised {
+				// a run whose callees are summarised by over-approximating stubs has paths no native
+				// run follows; its counterexamples are still confirmed natively one by one
 				traceEvery = 1
 			}
 			rs, err := explore(ws, run, known, seed, traceEvery)
@@ -556,7 +583,7 @@ func checkMain(id, tier string) int {
 			for _, v := range rs.violations {
 				nReplay++
 				rf := replayFile{Property: id, Unit: ui, Run: run.Name, Entry: run.Entry, Params: run.Params, Inputs: v.Inputs,
-					Label: v.Label, Kind: v.Kind, Site: v.Site, Tags: v.Tags, Known: v.Known, Sched: v.Sched, Readable: readable(v.Inputs)}
+					Label: v.Label, Kind: v.Kind, Site: v.Site, Tags: v.Tags, Known: v.Known, Sched: v.Sched, Readable: readableDocs(v.Inputs, v.Docs), Docs: v.Docs}
 				pending = append(pending, rf)
 			}
 			// differential traces (sampled by seed)
@@ -572,7 +599,7 @@ func checkMain(id, tier string) int {
 			}
 			for _, tr := range traces {
 				pending = append(pending, replayFile{Property: id, Unit: ui, Run: run.Name, Entry: run.Entry, Params: run.Params,
-					Inputs: tr.Inputs, Observe: tr.Observe, Outcome: tr.Outcome, Kind: "trace"})
+					Inputs: tr.Inputs, Observe: tr.Observe, Outcome: tr.Outcome, Kind: "trace", Docs: tr.Docs, Readable: readableDocs(tr.Inputs, tr.Docs)})
 			}
 		}
 		for _, w := range ws {
@@ -598,7 +625,7 @@ func checkMain(id, tier string) int {
 				if !traceAgrees(rf, nr) {
 					ev.Coverage.TraceMismatches++
 					fmt.Printf("ENGINE-MISMATCH property=%s run=%s inputs: %s\n    engine: outcome=%s\n    native: result=%s failed=%v msg=%s\n",
-						id, rf.Run, readable(rf.Inputs), rf.Outcome, nr.Result, nr.Failed, nr.Msg)
+						id, rf.Run, readableDocs(rf.Inputs, rf.Docs), rf.Outcome, nr.Result, nr.Failed, nr.Msg)
 					for k := 0; k < len(rf.Observe) || k < len(nr.Observe); k++ {
 						var a, b string
 						if k < len(rf.Observe) {
